@@ -99,10 +99,10 @@ func ruleR15(c *Ctx) *RuleResult {
 		for i := 0; i < st.NumFields(); i++ {
 			f := st.Field(i)
 			if _, isMap := f.Type().Underlying().(*types.Map); isMap {
-				table = f.Name()
+				table = fieldN(ct, i)
 			}
 			if n := namedOf(f.Type()); n != nil && p.T.IsContainer(n) {
-				order = f.Name()
+				order = fieldN(ct, i)
 			}
 		}
 		pos := p.Pos(ct.Obj().Pos())
@@ -1209,71 +1209,117 @@ func ruleR19bSize(c *Ctx, r *RuleResult) {
 	p := c.p
 	tk := "queues/circularbuffer.Queue"
 	clause := "R19b-size the size recomputed from (start, end, full) is non-negative on every path, given 0 <= start,end <= capacity: a difference of the indices is only taken in the direction the path has established (Go's % keeps the sign of the dividend)"
+	clR := "R19b-recompute wherever the cached size is recomputed from (start, end, full), that is the last write to the ring's state on the path: no field the recomputation reads is stored afterwards"
 	ct := p.T.ContainerByKey(tk)
 	if ct == nil {
 		return
 	}
-	fn := methodsOf(p, ct)["calculateSize"]
-	if fn == nil {
-		// no recomputation helper: judged by R12b/c
-		r.add(Obligation{Key: "R19b-size:" + tk, Rule: "R19b-size", Clause: clause, Pos: "-", Status: Discharged, Facts: "no calculateSize helper (the size is maintained incrementally: R12b/c)"})
-		return
+	ms := methodsOf(p, ct)
+	helper := ms["calculateSize"] // may be absent: the recomputation can be written out where it is needed
+	anchorPos := p.Pos(ct.Obj().Pos())
+	if helper != nil {
+		anchorPos = p.FuncPos(helper)
 	}
-	// a recomputation is only as good as the fields it reads: on no path may a field that calculateSize reads be written
-	// after the size was recomputed from it (the cached size would describe the state before that write)
-	{
-		clR := "R19b-recompute wherever the cached size is recomputed from (start, end, full), that is the last write to the ring's state on the path: no field the recomputation reads is stored afterwards"
-		st := ct.Underlying().(*types.Struct)
-		reads := map[string]bool{}
-		for i := 0; i < st.NumFields(); i++ {
-			if readsField(fn, i) && fieldN(ct, i) != "size" {
-				reads[fieldN(ct, i)] = true
-			}
+	// a recomputation: a value stored into size that reads the ring's other fields and not size itself
+	st := ct.Underlying().(*types.Struct)
+	other := map[string]bool{}
+	for i := 0; i < st.NumFields(); i++ {
+		if n := fieldN(ct, i); n != "size" {
+			other[n] = true
 		}
-		var badR []string
-		nre := 0
-		ms := methodsOf(p, ct)
-		for _, name := range sortedNames(ms) {
-			for _, g := range c.GC(ms[name]).GCs {
-				for i, ef := range g.Effects {
-					if !storeToField(ef, "size") || !ef.Args[1].any(func(t *Term) bool { return t.Op == "call" && strings.HasSuffix(t.Leaf, ").calculateSize") }) {
-						continue
+	}
+	viaHelper := func(v *Term) bool {
+		return v.any(func(t *Term) bool { return t.Op == "call" && strings.HasSuffix(t.Leaf, ").calculateSize") })
+	}
+	isRecompute := func(v *Term) bool {
+		if viaHelper(v) {
+			return true
+		}
+		readsOther, readsSize := false, false
+		v.any(func(t *Term) bool {
+			if t.Op == "fa" && len(t.Args) == 1 && t.Args[0].String() == "p:0" {
+				if t.Leaf == "size" {
+					readsSize = true
+				} else if other[t.Leaf] {
+					readsOther = true
+				}
+			}
+			return false
+		})
+		return readsOther && !readsSize
+	}
+	var badR, badS []string
+	nre, nval := 0, 0
+	for _, name := range sortedNames(ms) {
+		for _, g := range c.GC(ms[name]).GCs {
+			for i, ef := range g.Effects {
+				if !storeToField(ef, "size") || ef.Args[0].Args[0].String() != "p:0" || !isRecompute(ef.Args[1]) {
+					continue
+				}
+				nre++
+				// which fields does it read? (through the helper: the helper's reads)
+				reads := map[string]bool{}
+				ef.Args[1].any(func(t *Term) bool {
+					if t.Op == "fa" && other[t.Leaf] {
+						reads[t.Leaf] = true
 					}
-					nre++
-					for _, e2 := range g.Effects[i+1:] {
-						if isStore(e2) && e2.Args[0].Op == "fa" && reads[e2.Args[0].Leaf] && e2.Args[0].Args[0].String() == "p:0" {
-							badR = append(badR, fmt.Sprintf("%s stores %s after the size was recomputed from it: %s", name, e2.Args[0].Leaf, trunc(noEpoch(e2), 120)))
+					return false
+				})
+				for _, a := range g.Guards { // the case distinction of a written-out recomputation reads fields too
+					a.any(func(t *Term) bool {
+						if t.Op == "fa" && other[t.Leaf] && !viaHelper(ef.Args[1]) {
+							reads[t.Leaf] = true
 						}
-						if nm, _, ok := effDo(e2); ok && nm != "calculateSize" {
-							badR = append(badR, fmt.Sprintf("%s calls %s after the size was recomputed", name, nm))
+						return false
+					})
+				}
+				if helper != nil {
+					for fi := 0; fi < st.NumFields(); fi++ {
+						if readsField(helper, fi) && fieldN(ct, fi) != "size" {
+							reads[fieldN(ct, fi)] = true
 						}
+					}
+				}
+				for _, e2 := range g.Effects[i+1:] {
+					if isStore(e2) && e2.Args[0].Op == "fa" && reads[e2.Args[0].Leaf] && e2.Args[0].Args[0].String() == "p:0" {
+						badR = append(badR, fmt.Sprintf("%s stores %s after the size was recomputed from it: %s", name, e2.Args[0].Leaf, trunc(noEpoch(e2), 120)))
+					}
+					if nm, _, ok := effDo(e2); ok && nm != "calculateSize" {
+						badR = append(badR, fmt.Sprintf("%s calls %s after the size was recomputed", name, nm))
+					}
+				}
+				// written out in place: the stored value itself must be non-negative under the path's guards
+				if !viaHelper(ef.Args[1]) {
+					nval++
+					if !provablyNonNeg(ef.Args[1], g) {
+						badS = append(badS, fmt.Sprintf("%s stores size := %s on the path %s — not provably non-negative", name, trunc(noEpoch(ef.Args[1]), 160), trunc(guardsString(g), 200)))
 					}
 				}
 			}
 		}
-		if len(badR) > 0 {
-			r.add(Obligation{Key: "R19b-recompute:" + tk, Rule: "R19b-recompute", Clause: clR, Pos: p.FuncPos(fn), Status: Violated, Facts: strings.Join(dedup(badR), "\n")})
-		} else {
-			r.add(Obligation{Key: "R19b-recompute:" + tk, Rule: "R19b-recompute", Clause: clR, Pos: p.FuncPos(fn), Status: Discharged, Facts: fmt.Sprintf("%d recomputation site-paths, each the last write to the ring's state", nre)})
-		}
 	}
-	var bad []string
-	n := 0
-	for _, g := range c.GC(fn).GCs {
-		if g.Exit.Op != "return" || len(g.Exit.Args) != 1 {
-			continue
-		}
-		n++
-		if !provablyNonNeg(g.Exit.Args[0], g) {
-			bad = append(bad, fmt.Sprintf("returns %s on the path %s — not provably non-negative", trunc(noEpoch(g.Exit.Args[0]), 160), trunc(guardsString(g), 200)))
-		}
-	}
-	if n == 0 {
-		bad = append(bad, "no return path found")
-	}
-	if len(bad) > 0 {
-		r.add(Obligation{Key: "R19b-size:" + tk, Rule: "R19b-size", Clause: clause, Pos: p.FuncPos(fn), Status: Violated, Facts: strings.Join(dedup(bad), "\n")})
+	if len(badR) > 0 {
+		r.add(Obligation{Key: "R19b-recompute:" + tk, Rule: "R19b-recompute", Clause: clR, Pos: anchorPos, Status: Violated, Facts: strings.Join(dedup(badR), "\n")})
 	} else {
-		r.add(Obligation{Key: "R19b-size:" + tk, Rule: "R19b-size", Clause: clause, Pos: p.FuncPos(fn), Status: Discharged, Facts: fmt.Sprintf("%d return paths, each provably >= 0", n)})
+		r.add(Obligation{Key: "R19b-recompute:" + tk, Rule: "R19b-recompute", Clause: clR, Pos: anchorPos, Status: Discharged, Facts: fmt.Sprintf("%d recomputation site-paths, each the last write to the ring's state", nre)})
+	}
+	if helper != nil {
+		for _, g := range c.GC(helper).GCs {
+			if g.Exit.Op != "return" || len(g.Exit.Args) != 1 {
+				continue
+			}
+			nval++
+			if !provablyNonNeg(g.Exit.Args[0], g) {
+				badS = append(badS, fmt.Sprintf("calculateSize returns %s on the path %s — not provably non-negative", trunc(noEpoch(g.Exit.Args[0]), 160), trunc(guardsString(g), 200)))
+			}
+		}
+	}
+	switch {
+	case len(badS) > 0:
+		r.add(Obligation{Key: "R19b-size:" + tk, Rule: "R19b-size", Clause: clause, Pos: anchorPos, Status: Violated, Facts: strings.Join(dedup(badS), "\n")})
+	case nval == 0:
+		r.add(Obligation{Key: "R19b-size:" + tk, Rule: "R19b-size", Clause: clause, Pos: anchorPos, Status: Discharged, Facts: "the size is never recomputed from the indices (maintained incrementally: R12b/c)"})
+	default:
+		r.add(Obligation{Key: "R19b-size:" + tk, Rule: "R19b-size", Clause: clause, Pos: anchorPos, Status: Discharged, Facts: fmt.Sprintf("%d recomputed values, each provably >= 0", nval)})
 	}
 }
